@@ -3,7 +3,7 @@ import json
 from .. import gen
 from . import seqprop
 
-GEN = ['JsonUtilGen.v', 'Sites.v', 'Decisions.v', 'BookGen.v']
+GEN = ['JsonUtilGen.v', 'Sites.v', 'Decisions.v', 'BookGen.v', 'DriverGen.v']
 DECISIONS = ['Cache.write', 'FileBackups.back_up_and_remove', 'FileBackups.restore_all', 'FileBuilder._apply_cached_suboperations', 'FileBuilder._assert_build_file_call_valid', 'FileBuilder._build', 'FileBuilder._build_file', 'FileBuilder._commit', 'FileBuilder._create_dirs', 'FileBuilder._dirs_to_make', 'FileBuilder._handle_error_building_file', 'FileBuilder._make_dirs', 'FileBuilder._make_room', 'FileBuilder._prepare_file_creation', 'FileBuilder._rebuild_file', 'FileBuilder._remove_empty_dirs', 'FileBuilder._roll_back', 'FileBuilder._set_created_dirs', 'FileBuilder._subbuild', 'FileBuilder._try_to_remove_file', 'FileBuilder.build_file_with_comparison', 'FileBuilder.subbuild']
 SITES = True
 ORDER = False
